@@ -171,10 +171,10 @@ func suiteT1cs(o *suiteOut, r *rng, tier string, n int) {
 	// flex after a move, a line and a curve (with a conforming flex sequence)
 	flexSeq := func() []byte {
 		var b []byte
-		b = append(b, cat(csInt(1), csInt(0), csOp(opCallothersubr))...)
+		b = append(b, cat(csInt(0), csInt(1), csOp(opCallothersubr))...)
 		for i, d := range [][2]int{{30, 0}, {-20, 10}, {10, 5}, {10, 0}, {10, 0}, {10, -5}, {10, -10}} {
 			_ = i
-			b = append(b, cat(csInt(d[0]), csInt(d[1]), csOp(opRmoveto), csInt(2), csInt(0), csOp(opCallothersubr))...)
+			b = append(b, cat(csInt(d[0]), csInt(d[1]), csOp(opRmoveto), csInt(0), csInt(2), csOp(opCallothersubr))...)
 		}
 		b = append(b, cat(csInt(50), csInt(160), csInt(100), csInt(3), csInt(0), csOp(opCallothersubr), csOp(opPop), csOp(opPop), csOp(opSetcurrentpoint))...)
 		return b
